@@ -680,6 +680,149 @@ def r09_10(chk, P):
     return n
 
 
+def r09_11(chk, P, rule='R09.11'):
+    chk.rule(rule, 'the current link indexes the per-link tables only on a seekable handle: a streaming handle keeps one entry per '
+             'table while vf->current_link counts the links played.  Wherever a per-link table of the handle is subscripted (or '
+             'offset) by vf->current_link -- directly or through a local whose definition reads it -- the read of current_link '
+             'is unreachable with vf->seekable false: every path from the function entry passes a test of vf->seekable on its '
+             'seekable side (the `vf->seekable ? vf->current_link : 0` idiom counts), or the function is file-local and every '
+             'one of its call sites is itself unreachable on a streaming handle')
+    fns = [F for F in P.functions() if F.file.endswith('vorbisfile.c')]
+    memo = {}
+
+    def seek_edges_cut(F):
+        """edges on which vf->seekable is known true"""
+        cut = set()
+        for b, blk in F.blocks.items():
+            t = blk.get('term') or {}
+            c = t.get('cond')
+            if c is None or len(blk['succs']) != 2:
+                continue
+            cn = F.ex[F.strip_casts(c)]
+            neg = False
+            while cn['k'] == 'un' and cn['op'] == '!':
+                neg = not neg
+                cn = F.ex[F.strip_casts(cn['c'][0])]
+            if cn['k'] == 'member' and cn.get('record') == VF and cn['field'] == 'seekable':
+                cut.add((b, 1 if neg else 0))
+                continue
+            # `r=G(vf,..); if(r<0)return` / `if(r)return`: when G answers a streaming handle with a negative code only, the
+            # continuing edge is seekable
+            var, cont = None, None
+            if cn['k'] == 'bin' and cn['op'] == '<' and common.const_val(F, cn['c'][1]) == 0:
+                x = F.ex[F.strip_casts(cn['c'][0])]
+                if x['k'] == 'ref':
+                    var, cont = x['decl'].get('id'), (0 if neg else 1)
+                elif x['k'] == 'assign' and x['op'] == '=':
+                    var, cont = ('direct', F.strip_casts(x['c'][1])), (0 if neg else 1)
+            elif cn['k'] == 'ref' and cn['decl'].get('kind') == 'var':
+                var, cont = cn['decl'].get('id'), (0 if neg else 1)
+            if var is None:
+                continue
+            call = None
+            if isinstance(var, tuple):
+                call = var[1]
+            else:
+                # the last definition of the variable before the test, in this block
+                for e in reversed(blk['elems']):
+                    nd = F.ex[e]
+                    rhs = None
+                    if nd['k'] == 'decl':
+                        for v in nd['vars']:
+                            if v.get('id') == var and v.get('init'):
+                                rhs = v['init']
+                    elif nd['k'] == 'assign' and nd['op'] == '=':
+                        l = F.ex[F.strip_casts(nd['c'][0])]
+                        if l['k'] == 'ref' and l['decl'].get('id') == var:
+                            rhs = nd['c'][1]
+                    if rhs is not None:
+                        call = F.strip_casts(rhs)
+                        break
+            if call is None or F.ex[call]['k'] != 'call':
+                continue
+            tg = P.call_targets(F, call)
+            if tg and all(t in P.fn and refuses_streaming(P.fn[t]) for t in tg):
+                cut.add((b, cont))
+        return cut
+
+    refuse_memo = {}
+
+    def refuses_streaming(G):
+        """every return of G that is reachable with vf->seekable false yields a negative constant"""
+        k = P.key(G)
+        if k in refuse_memo:
+            return refuse_memo[k]
+        refuse_memo[k] = False
+        if not G.file.endswith('vorbisfile.c'):
+            return False
+        un = reach_unseekable(G)
+        ok = True
+        for r in cfg.returns(G):
+            if G.pos[r][0] not in un:
+                continue
+            v = common.const_val(G, G.ex[r]['c'][0]) if G.ex[r].get('c') else None
+            if v is None or v >= 0:
+                ok = False
+        refuse_memo[k] = ok
+        return ok
+
+    def reach_unseekable(F):
+        """blocks reachable from the entry while vf->seekable may be false"""
+        k = P.key(F)
+        if k in memo:
+            return memo[k]
+        memo[k] = set(F.blocks)          # recursion guard: pessimistic
+        cut = seek_edges_cut(F)
+        entry_possible = True
+        if F.static:
+            sites = [(G, c) for G in fns for c in G.calls(F.name) if k in P.call_targets(G, c)]
+            if sites and all(G.pos[c][0] not in reach_unseekable(G) for (G, c) in sites):
+                entry_possible = False
+        seen = set()
+        if entry_possible:
+            st = [F.entry]
+            while st:
+                b = st.pop()
+                if b is None or b in seen:
+                    continue
+                seen.add(b)
+                for i_, s_ in enumerate(F.blocks[b]['succs']):
+                    if (b, i_) not in cut:
+                        st.append(s_)
+        memo[k] = seen
+        return seen
+    n = 0
+    for F in fns:
+        defs = common.single_defs(F)
+
+        def cl_reads(e, depth=0):
+            out = []
+            for q in F.walk(e):
+                nd = F.ex[q]
+                if nd['k'] == 'member' and nd.get('record') == VF and nd['field'] == 'current_link':
+                    out.append(q)
+                elif nd['k'] == 'ref' and nd['decl'].get('kind') == 'var' and depth < 2:
+                    d = defs.get(nd['decl'].get('id'))
+                    if d is not None:
+                        out += cl_reads(d, depth + 1)
+            return out
+        seen_sites = set()
+        for (node, tab, idx) in table_accesses(P, F):
+            if idx is None:
+                continue
+            for q in cl_reads(idx):
+                if (node, q) in seen_sites:
+                    continue
+                seen_sites.add((node, q))
+                bad = F.pos[q][0] in reach_unseekable(F) if q in F.pos else True
+                n += 1
+                chk.ob(rule, F.name, f'{tab}[current_link]-only-when-seekable@{F.loc(node)}', not bad, F.where(node),
+                       f'`{F.s(node)[:60]}`: the read of current_link on line {F.loc(q)} is behind a seekable test' if not bad else
+                       f'`{F.s(node)[:60]}` is reachable on a streaming handle: vf->{tab} has one entry there while current_link counts '
+                       'the links played -- from the second link of a chained stream on this reads past the table')
+    return n
+
+
 def run(chk, P):
     r09_7(chk, P)
     chk.floor('R09.7', 4)
@@ -702,6 +845,8 @@ def run(chk, P):
     chk.floor('R09.9', 2)
     r09_10(chk, P)
     chk.floor('R09.10', 1)
+    r09_11(chk, P)
+    chk.floor('R09.11', 5)
     import frames
     frames.c09(chk, P)
     chk.trusted += ['clang 14 front end', 'exact evaluation of subscript expressions for L = 0,1,2 (linear forms)', 'K4 symbolic bounds']
